@@ -321,6 +321,17 @@ class Ctx:
               "coverage": self.cov, "assumptions": self.assumptions, "wall_s": round(wall, 2),
               "violations": violations, "repo": repo_fingerprint(), "notes": self.notes,
               "known_findings_seen": sorted(printed)}
+        # shape of the evidence schema, enforced here so that a check can never write a file that does not validate
+        cov = self.cov
+        if not isinstance(cov.get("exhaustive", False), bool):
+            cov["exhaustive_note"] = str(cov["exhaustive"]); cov["exhaustive"] = False
+        for k in ("evaluations", "distinct_nontrivial", "states", "transitions", "traces_validated_against_impl", "obligations", "discharged"):
+            if k in cov and (not isinstance(cov[k], int) or isinstance(cov[k], bool) or cov[k] < 0):
+                cov[k] = max(0, int(cov[k]))
+        if "samples" in cov and not isinstance(cov["samples"], list):
+            cov["samples"] = [cov["samples"]]
+        if "rule" in cov and not isinstance(cov["rule"], str):
+            cov["rule"] = str(cov["rule"])
         os.makedirs(os.path.join(ROOT, "evidence"), exist_ok=True)
         with open(os.path.join(ROOT, "evidence", self.pid + ".json"), "w") as fh:
             json.dump(ev, fh, indent=1, default=str)
